@@ -30,6 +30,8 @@ var verifTemplates = []verifTemplate{
 	{"whileret", "fn find(limit: int) -> int {\n  let i = 0;\n  while i < 5 {\n    if i == limit { return i * 10; }\n    i += 1;\n  }\n  return 0 - 1;\n}\nfn main() {\n  println(find(A));\n  println(find(2));\n}\n"},
 	{"recur", "fn fib(n: int) -> int { if n < 2 { return n; } return fib(n - 1) + fib(n - 2); }\nfn main() {\n  println(fib(6));\n  println(fib(3) + A);\n}\n"},
 	{"closure", "fn main() {\n  let k = A;\n  let f = fn(a: int) -> int { a + k };\n  println(f(1));\n}\n"},
+	{"lambda-nested", "fn main() {\n  let make = fn(n: int) -> int {\n    let inner = fn(x: int) -> int { x * 2 };\n    inner(n) + 1\n  };\n  println(make(A));\n  let third = fn(n: int) -> int { n - 3 };\n  println(third(B), make(B));\n}\n"},
+	{"lambda-in-lambda-argument", "fn apply(f: fn(x: int) -> int, v: int) -> int { return f(v); }\nfn main() {\n  println(apply(fn(x: int) -> int { apply(fn(x: int) -> int { x + 1 }, x) + 100 }, A));\n  println(apply(fn(x: int) -> int { let g = fn(b: int) -> int { fn(c: int) -> int { c * 3 }(b) - 1 }; g(x) }, B));\n}\n"},
 	{"lambda", "fn main() {\n  let f = fn(a: int, b: int) -> int { a * 2 - b };\n  println(f(A, B));\n}\n"},
 	{"range", "fn main() {\n  for i in 0..3 { println(i + A); }\n  for i in 0..=2 { println(i); }\n}\n"},
 	{"index", "fn main() {\n  let l = [10, 20, 30];\n  println(l[0], l[2], l[0 - 1]);\n  println(l[A]);\n  println(\"after\");\n}\n"},
@@ -87,5 +89,31 @@ func VerifHarness_Templates() {
 	p, q := errors.VerifNdBool("P"), errors.VerifNdBool("Q")
 	inputs := []verifInput{{name: "A", kind: 'i', i: a}, {name: "B", kind: 'i', i: b}, {name: "C", kind: 'i', i: c},
 		{name: "X", kind: 'f', f: x}, {name: "Y", kind: 'f', f: y}, {name: "P", kind: 'b', b: p}, {name: "Q", kind: 'b', b: q}}
+	verifCheckProgram(mode, t.code, inputs, true)
+}
+
+// Range family: the bounds of every range are host-provided globals S and E,
+// unconstrained inside the window [-3, 3] (all four orders: ascending,
+// descending, equal, adjacent), so that the iteration direction, the
+// inclusive end and the re-iteration of a range held in a variable are all
+// decided by the solver; K is the position of an early exit.
+var verifRangeTemplates = []verifTemplate{
+	{"literal-in-head", "fn main() {\n  for i in S..E { println(i); }\n  println(\"-\");\n  for i in S..=E { println(i); }\n}\n"},
+	{"variable-exclusive-early-exit", "fn main() {\n  let r = S..E;\n  for i in r {\n    if i == K { break; }\n    println(i);\n  }\n  println(\"-\");\n  for i in r { println(i); }\n}\n"},
+	{"variable-inclusive-early-exit", "fn first(r: range) -> int {\n  for i in r {\n    if i == K { return i; }\n  }\n  return 100;\n}\nfn main() {\n  let r = S..=E;\n  println(first(r));\n  for i in r { println(i); }\n}\n"},
+	{"variable-nested", "fn main() {\n  let r = S..=E;\n  let n = 0;\n  for i in r { for j in r { n += 1; println(i * 10 + j); } }\n  println(n);\n}\n"},
+	{"throw-out-of-loop", "fn scan(r: range) {\n  for i in r {\n    if i == K { throw(\"hit\"); }\n    println(i);\n  }\n}\nfn main() {\n  let r = S..E;\n  try { scan(r); } catch e { println(e.message); }\n  for i in r { println(i); }\n}\n"},
+	{"members", "fn main() {\n  let r = S..=E;\n  println(r.start, r.end, r.diff(), r);\n  let q = r.rev();\n  println(q.start, q.end);\n  for i in q { println(i); }\n}\n"},
+}
+
+func VerifHarness_Ranges() {
+	mode := errors.VerifParam("mode", 1)
+	t := verifRangeTemplates[errors.VerifNdIntRange("template", 0, len(verifRangeTemplates)-1)]
+	errors.VerifTag("template", t.name)
+	s, e, k := errors.VerifNdInt64("S"), errors.VerifNdInt64("E"), errors.VerifNdInt64("K")
+	errors.VerifAssume(s >= -3 && s <= 3)
+	errors.VerifAssume(e >= -3 && e <= 3)
+	errors.VerifAssume(k >= -4 && k <= 4)
+	inputs := []verifInput{{name: "S", kind: 'i', i: s}, {name: "E", kind: 'i', i: e}, {name: "K", kind: 'i', i: k}}
 	verifCheckProgram(mode, t.code, inputs, true)
 }
